@@ -4,6 +4,8 @@ package main
 //
 //   matcher pending <lines> <reqs>   => <query served last> <items it saw> <matched indices>
 //       reqs: ";"-joined  <query bytes>~<cancel 0|1>~<upto>   posted before the loop runs, in this order
+//   matcher hist <lines A> <lines B> <reqs> <tac>  => ";"-joined published indices per request
+//       reqs: ";"-joined <query>~<set 0|1>~<upto>~<final>~<sort>; a switch of set is a reload (major revision)
 //   matcher conc <lines> <queries> <sort> <tac> <yield>  => ";"-joined <query>~<snapshot count>~<indices>~<frozen>
 //   matcher scan <lines> <query> <sort> <tac> <partitions> <cancel 0|1|2>  => <cancelled> <hasMerger> <indices>
 
@@ -49,6 +51,27 @@ func matcherEval(op string, a []string) string {
 			xs[i] = int(v)
 		}
 		return fmt.Sprintf("%d %d %s", b2i(cancelled), b2i(has), encInts(xs))
+	case "hist":
+		// a[0] = first input (lines), a[1] = second input, a[2] = reqs, a[3] = tac
+		second := []string{}
+		for _, l := range decStrList(a[1]) {
+			second = append(second, string(l))
+		}
+		reqs := []fzf.VerifHistReq{}
+		for _, r := range strings.Split(a[2], ";") {
+			f := strings.Split(r, "~")
+			reqs = append(reqs, fzf.VerifHistReq{Query: string(decBytes(f[0])), Set: atoi(f[1]), Upto: atoi(f[2]), Final: f[3] == "1", Sort: f[4] == "1"})
+		}
+		res := fzf.VerifMatcherHistory([][]string{lines, second}, reqs, a[3] == "1")
+		parts := []string{}
+		for _, idx := range res {
+			xs := make([]int, len(idx))
+			for i, v := range idx {
+				xs[i] = int(v)
+			}
+			parts = append(parts, encInts(xs))
+		}
+		return strings.Join(parts, ";")
 	case "conc":
 		qs := []string{}
 		for _, q := range decStrList(a[1]) {
@@ -79,6 +102,10 @@ func matcherGen(r *rand.Rand, count int, emit func(op string, args ...string)) {
 			lines = append(lines, []byte(patWords[r.Intn(len(patWords))]+[]string{"", " ", "/"}[r.Intn(3)]+patWords[r.Intn(len(patWords))]))
 		}
 		qs := []string{"a", "b", "fo", "ba", "o", "", "x", "foo", "!a", "a | b"}
+		if r.Intn(3) == 0 {
+			emitHist(r, emit)
+			continue
+		}
 		if r.Intn(4) == 0 {
 			// searches through the real loop while a loader goroutine is still pushing
 			big := [][]byte{}
@@ -113,6 +140,106 @@ func matcherGen(r *rand.Rand, count int, emit func(op string, args ...string)) {
 			emit("scan", encStrList(lines), encStr(qs[r.Intn(len(qs))]), itoa(r.Intn(2)), itoa(r.Intn(2)), itoa([]int{0, 1, 2, 3, 7, 32}[r.Intn(6)]), itoa(r.Intn(3)))
 		}
 	}
+}
+
+// histLines: mostly filler, with a few lines that carry the tokens the queries look for, so that
+// per-chunk results stay under queryCacheMax and the chunk cache is really used.
+func histLines(r *rand.Rand, n int) [][]byte {
+	rare := []string{"foo", "Foo", "fob", "f\to", "ofo", "foobar", "barfoo", "a b", "a\tb", "ba", "café", "cafe", "oof", "FOO bar", "b a"}
+	out := [][]byte{}
+	for k := 0; k < n; k++ {
+		if r.Intn(12) == 0 {
+			out = append(out, []byte(rare[r.Intn(len(rare))]+[]string{"", " x", "/y", " 12"}[r.Intn(4)]))
+		} else {
+			out = append(out, []byte(fmt.Sprintf("%s%d", []string{"x", "yz", "q-", "z z"}[r.Intn(4)], r.Intn(1000))))
+		}
+	}
+	return out
+}
+
+func emitHist(r *rand.Rand, emit func(op string, args ...string)) {
+	n0 := []int{100, 200, 230, 300, 500}[r.Intn(5)]
+	n1 := n0
+	if r.Intn(2) == 0 {
+		n1 = []int{100, 150, 300}[r.Intn(3)]
+	}
+	first, second := histLines(r, n0), histLines(r, n1)
+	chains := [][]string{
+		{"f", "fo", "foo", "fo", "foo"},
+		{"o", "oo", "foo", "foob"},
+		{"fo", "Fo", "Foo", "foo"},
+		{"a", "a b", "a\tb", "a b"},
+		{"a\tb", "a b"},
+		{"foo", "foo !bar", "foo bar", "foo | bar", "foo"},
+		{"caf", "cafe", "café", "cafe"},
+		{"'fo", "'foo", "foo"},
+		{"^fo", "fo", "foo$", "foo"},
+		{"ba", "b", "ba", "", "ba"},
+	}
+	reqs := []string{}
+	set, upto := 0, 0
+	sorted := true
+	total := n0
+	nreq := 4 + r.Intn(10)
+	chain := chains[r.Intn(len(chains))]
+	ci := 0
+	for k := 0; k < nreq; k++ {
+		switch r.Intn(8) {
+		case 0:
+			sorted = !sorted
+		case 1:
+			if set == 0 { // reload
+				set, upto, total = 1, 0, n1
+			}
+		case 2:
+			chain = chains[r.Intn(len(chains))]
+			ci = 0
+		}
+		// loading progresses (often to a chunk boundary or to the size of the old input)
+		if upto < total {
+			switch r.Intn(4) {
+			case 0:
+				upto = total
+			case 1:
+				upto += 100 - upto%100
+			case 2:
+				upto += 1 + r.Intn(total-upto)
+			}
+			if upto > total {
+				upto = total
+			}
+		}
+		if upto == 0 {
+			upto = 1 + r.Intn(total)
+		}
+		final := upto == total && r.Intn(3) > 0
+		if k == nreq-1 {
+			upto, final = total, true
+		}
+		reqs = append(reqs, fmt.Sprintf("%s~%d~%d~%d~%d", encStr(chain[ci%len(chain)]), set, upto, b2i(final), b2i(sorted)))
+		if final { // once reading has finished, every later request of this input is final too
+			total = upto
+		}
+		ci++
+	}
+	// finality is monotone within one input
+	emit("hist", encStrList(first), encStrList(second), strings.Join(fixFinal(reqs), ";"), itoa(r.Intn(2)))
+}
+
+func fixFinal(reqs []string) []string {
+	seenFinal := map[string]bool{}
+	out := []string{}
+	for _, q := range reqs {
+		f := strings.Split(q, "~")
+		if seenFinal[f[1]] {
+			f[3] = "1"
+		}
+		if f[3] == "1" {
+			seenFinal[f[1]] = true
+		}
+		out = append(out, strings.Join(f, "~"))
+	}
+	return out
 }
 
 func init() { register("matcher", &area{gen: matcherGen, eval: matcherEval}) }
